@@ -52,7 +52,8 @@ class P(Prop):
             if c.type(n) in ("0", "1") and rng.random() < 0.3:
                 c.set_output(n)
         if rng.random() < 0.35:
-            gen.add_flops(rng, c, connect_all=rng.random() < 0.5)
+            # sometimes an instance whose name is an escaped identifier (K37)
+            gen.add_flops(rng, c, connect_all=rng.random() < 0.5, inst="\\u$" if rng.random() < 0.2 else "ff")
         if rng.random() < 0.25:
             # escaped identifiers
             victims = [n for n in c.graph.nodes if "." not in n]
